@@ -232,12 +232,16 @@ class FakeSelectModule(metaclass=_SelectModuleMeta):
     @staticmethod
     def select(rlist, wlist, xlist, timeout=None):
         out = []
-        for fd in rlist:
+        for item in rlist:
+            fd = item if isinstance(item, int) else item.fileno()       # select() takes descriptors or objects with fileno()
             if fd == -1:
                 raise ValueError('file descriptor cannot be a negative integer (-1)')
             ep = _TABLE.get(fd)
             if ep is None or ep.released:
                 raise OSError(errno.EBADF, 'Bad file descriptor')
             if ep.readable():
-                out.append(fd)
+                out.append(item)
+        if wlist or xlist:
+            from .core import Unmodelled
+            raise Unmodelled('select() for writing / exceptional conditions is not modelled')
         return out, [], []
